@@ -200,32 +200,37 @@ def run(ck):
                 else:
                     ck.undecided("C19.R1", "_convert_basis_element_to_index:weights 2^(n-1)..2^0", conv.site(), "powers %r not recognised" % (pw,))
     # ------------------------------------------------------------------ R2 size guard
-    with ck.guard("C19.R2", "size guard", ghs.site()):
-        def th4(it):
-            s = make_state(it, "ComplexWaveFunction")
-            n0 = len(it.ext_calls)
-            r = call(it, s, "generate_hilbert_space", api.intsym("n"))
-            return n0
+    for form, sym in (("explicit size", "n"), ("default size (the number of visible units)", "nv")):
+        with ck.guard("C19.R2", "size guard/" + form, ghs.site()):
+            def th4(it, form=form):
+                s = make_state(it, "ComplexWaveFunction")
+                n0 = len(it.ext_calls)
+                if form == "explicit size":
+                    call(it, s, "generate_hilbert_space", api.intsym("n"))
+                else:
+                    call(it, s, "generate_hilbert_space")
+                return n0
 
-        paths = paths_of(prog, th4)
-        raised = [p for p in paths if p.outcome == "raise"]
-        ck.check(len(raised) == 1 and raised[0].value.exc_name == "ValueError", "C19.R2", "too large -> ValueError", ghs.site(), "no ValueError path for oversized spaces")
-        for p in raised:
-            alloc = [c for c in p.interp.ext_calls if c[0] in ("numpy.arange", "torch.tensor", "torch.zeros") and "generate_hilbert_space" in c[3]]
-            ck.check(not alloc, "C19.R2", "refused before allocation", ghs.site(), "the space is (partly) allocated before the size is refused")
-            conds = [c for c in p.conds if len(c) > 3 and getattr(c[3], "term", None) is not None]
-            okc = False
-            for c in conds:
-                at = c[3].term.single_atom()
-                if at is not None and isinstance(at, T.App) and at.op == "cmp_Gt" and at.args[0] == T.sym("n"):
-                    lim = at.args[1].const_value()
-                    okc = lim is not None
-                    ck.check(c[2] is True, "C19.R2", "raises iff size > max_size", ghs.site(), "the error is raised when size <= max_size")
-                    ck.extra["max_size"] = int(lim) if lim is not None else None
-                elif at is not None and isinstance(at, T.App) and at.op == "cmp_GtE" and at.args[0] == T.sym("n"):
-                    ck.violation("C19.R2", "max_size itself accepted", ghs.site(), "a space of exactly max_size is refused (comparison is >=)")
-                    okc = True
-            ck.check(okc, "C19.R2", "strict comparison with max_size", ghs.site(), "the guard is not `size > max_size`")
+            paths = paths_of(prog, th4)
+            raised = [p for p in paths if p.outcome == "raise"]
+            ck.check(len(raised) == 1 and raised[0].value.exc_name == "ValueError", "C19.R2", "too large -> ValueError/" + form, ghs.site(),
+                     "no ValueError path for an oversized space (%s): the whole space would be allocated" % form)
+            for p in raised:
+                alloc = [c for c in p.interp.ext_calls if c[0] in ("numpy.arange", "torch.tensor", "torch.zeros") and "generate_hilbert_space" in c[3]]
+                ck.check(not alloc, "C19.R2", "refused before allocation/" + form, ghs.site(), "the space is (partly) allocated before the size is refused")
+                conds = [c for c in p.conds if len(c) > 3 and getattr(c[3], "term", None) is not None]
+                okc = False
+                for c in conds:
+                    at = c[3].term.single_atom()
+                    if at is not None and isinstance(at, T.App) and at.op == "cmp_Gt" and at.args[0] == T.sym(sym):
+                        lim = at.args[1].const_value()
+                        okc = lim is not None
+                        ck.check(c[2] is True, "C19.R2", "raises iff size > max_size/" + form, ghs.site(), "the error is raised when size <= max_size")
+                        ck.extra["max_size"] = int(lim) if lim is not None else None
+                    elif at is not None and isinstance(at, T.App) and at.op == "cmp_GtE" and at.args[0] == T.sym(sym):
+                        ck.violation("C19.R2", "max_size itself accepted/" + form, ghs.site(), "a space of exactly max_size is refused (comparison is >=)")
+                        okc = True
+                ck.check(okc, "C19.R2", "strict comparison with max_size/" + form, ghs.site(), "the guard is not `size > max_size`")
     # ------------------------------------------------------------------ R3 loaders
     D = "qucumber.utils.data"
     ld = prog.func(D, "load_data")
@@ -335,7 +340,7 @@ def run(ck):
                     lambda it, c: call(it, c[0], "generate_hilbert_space", api.intsym("n")), lambda it, c: call(it, c[0], "generate_hilbert_space"))
     ck.require_min("C19.R4", 6)
     ck.require_min("C19.R1", 9)
-    ck.require_min("C19.R2", 4)
+    ck.require_min("C19.R2", 8)
     ck.require_min("C19.R3", 14)
     ck.assumptions += [
         "np.arange ascends; 1 << k and 2 ** k are increasing in k; x[..., ::-1] reverses the last axis; boolean row masks preserve order",
